@@ -15,6 +15,9 @@
  *     N <sess> <mid> <code> <tok>         peer's NON with that mid arrives (not a reply to the CON)
  *     D <sess> <reason>                   coap_session_disconnected(session, reason); the session is dead
  *                                         afterwards (its socket is closed): later events on it are skipped
+ *     X <sess> <mid>                      coap_delete_node() on the first queued node of that session with that
+ *                                         mid, while it is linked into the send queue (what the library does to a
+ *                                         delayed multicast response it has just sent)
  *     I <timeout_ms>                      coap_io_process(ctx, timeout_ms) (0 = COAP_IO_WAIT, 4294967295 =
  *                                         COAP_IO_NO_WAIT); epoll_wait is interposed: it moves the clock by
  *                                         the timeout it is given and reports no event
@@ -171,9 +174,19 @@ static void c06(void) {
         g_dead[s] = 1;
       }
       i += 3;
-    } else if ((c == 'S' || c == 'K' || c == 'R' || c == 'P' || c == 'N') && i + 1 < vntok &&
+    } else if ((c == 'S' || c == 'K' || c == 'R' || c == 'P' || c == 'N' || c == 'X') && i + 1 < vntok &&
                g_dead[atoi(vtok[i + 1]) % g_nsess]) {
       i += (c == 'S') ? 7 : (c == 'P') ? 4 : (c == 'N') ? 5 : 3;
+    } else if (c == 'X' && i + 2 < vntok) {
+      int s = atoi(vtok[i + 1]) % g_nsess;
+      int mid = atoi(vtok[i + 2]);
+      coap_queue_t *q;
+      coap_lock_lock(g_ctx, return);
+      for (q = g_ctx->sendqueue; q; q = q->next)
+        if (q->session == g_sess[s] && q->id == mid) break;
+      coap_lock_unlock(g_ctx);
+      if (q) coap_delete_node(q);
+      i += 3;
     } else if (c == 'A' && i + 1 < vntok) {
       vn_advance((coap_tick_t)strtoull(vtok[i + 1], NULL, 10));
       i += 2;
